@@ -241,9 +241,11 @@ fn main() {
     }
     let feature = cfg!(feature = "dynamic");
     for (i, src) in input.split("\n=====\n").enumerate() {
+        // an empty chunk is skipped unless it is marked as the empty definition (`state_machine! {}`)
         if src.trim().is_empty() {
             continue;
         }
+        let src = if src.trim() == "/*empty*/" { "" } else { src };
         let r = std::panic::catch_unwind(|| run_one(src));
         match r {
             Ok(j) => println!("{{\"i\":{},\"feature\":{},\"r\":{}}}", i, feature, j),
